@@ -159,10 +159,16 @@ func c10Width(s *blkScn, line []byte, out *drv.Out) {
 	}
 }
 
-func c10Forest(f []blkBox, b *strings.Builder) {
+// c10Forest writes the forest; pct: vertical margins are spelled as percentages (of the containing block's WIDTH, 100px:
+// CSS 2.1 8.3, also for margin-top / margin-bottom).
+func c10Forest(f []blkBox, b *strings.Builder, pct bool) {
+	u := "px"
+	if pct {
+		u = "%"
+	}
 	for _, x := range f {
-		b.WriteString(fmt.Sprintf(`<div style="margin-top:%dpx;margin-bottom:%dpx;border-top-width:%dpx;border-bottom-width:%dpx;height:%s">`, x.Mt, x.Mb, x.Bt, x.Bb, px(x.H)))
-		c10Forest(x.Kids, b)
+		b.WriteString(fmt.Sprintf(`<div style="margin-top:%d%s;margin-bottom:%d%s;border-top-width:%dpx;border-bottom-width:%dpx;height:%s">`, x.Mt, u, x.Mb, u, x.Bt, x.Bb, px(x.H)))
+		c10Forest(x.Kids, b, pct)
 		b.WriteString("</div>")
 	}
 }
@@ -183,8 +189,13 @@ func c10Vertical(s *blkScn, line []byte, out *drv.Out) {
 	var b strings.Builder
 	b.WriteString(c10Head)
 	// a container with a top border: nothing collapses with the outside; y = 0 is its content top
-	b.WriteString(`<section style="display:block;border-top:7px solid black;margin-top:11px">`)
-	c10Forest(s.Forest, &b)
+	pct := out.Cur%2 == 1
+	if pct {
+		b.WriteString(`<section style="display:block;border-top:7px solid black;margin-top:11px;width:100px">`)
+	} else {
+		b.WriteString(`<section style="display:block;border-top:7px solid black;margin-top:11px">`)
+	}
+	c10Forest(s.Forest, &b, pct)
 	b.WriteString(`</section></body></html>`)
 	doc := b.String()
 	pages, err := drv.Layout(doc, &drv.Opts{})
